@@ -43,7 +43,7 @@ func init() {
 		Run: run,
 		Floors: func(t string) map[string]int64 {
 			return map[string]int64{"pt.on_vertex": 1000, "pt.on_closing_segment_of_unclosed_ring": 200, "pt.on_horizontal_edge": 500, "pt.ray_through_vertex": 1000,
-				"pt.inside_two_members": 100, "answer.inside": 1000, "answer.outside": 1000, "answer.onedge": 1000, "recv.outside": 200, "recv.not_outside": 200, "recv.self.outside": 100, "storage.rings_share_one_backing_array": 1000, "recv.self.not_outside": 100, "float.judged": 1000, "float.ray_grazes_one_ulp_edge": 1000, "float.extreme_scale": 300, "arg.*Bounds": 100}
+				"pt.inside_two_members": 100, "answer.inside": 1000, "answer.outside": 1000, "answer.onedge": 1000, "recv.outside": 200, "recv.not_outside": 200, "recv.self.outside": 100, "storage.rings_share_one_backing_array": 1000, "recv.self.not_outside": 100, "float.judged": 1000, "float.ray_grazes_one_ulp_edge": 1000, "float.extreme_scale": 300, "float.scaled_to_the_top_of_the_range": 150, "float.figure_around_the_origin": 300, "arg.*Bounds": 100}
 		},
 		Exhaustive: func(t string) bool { return false },
 	})
@@ -371,10 +371,23 @@ func runFloat(c *core.Ctx) {
 	var polys []geom.Polygon
 	scale := math.Pow(10, r.Range(-3, 6))
 	ox, oy := r.Range(-1, 1)*scale*10, r.Range(-1, 1)*scale*10
+	centred := r.Chance(0.15)
+	if centred {
+		ox, oy = 0, 0 // a figure around the origin: coordinates of both signs
+		c.Count("float.figure_around_the_origin")
+	}
 	nm := r.IntRange(1, 2)
 	for m := 0; m < nm; m++ {
 		var pg geom.Polygon
-		if r.Bool() {
+		if centred && r.Chance(0.7) {
+			// few vertices, long edges from one side of the origin to the other
+			n := r.IntRange(3, 5)
+			ring := make(geom.Path, n)
+			for i := range ring {
+				ring[i] = geom.Point{X: r.Range(-2, 2) * scale, Y: r.Range(-2, 2) * scale}
+			}
+			pg = geom.Polygon{ring}
+		} else if r.Bool() {
 			sh := gen.StarPolygon(r, ox+r.Range(-1, 1)*scale, oy+r.Range(-1, 1)*scale, scale*r.Range(0.5, 2), r.IntRange(3, 40), r.Intn(3), 0)
 			pg = sh.Poly
 		} else {
@@ -452,12 +465,36 @@ func runFloat(c *core.Ctx) {
 	}
 	// extreme magnitudes: the same figure multiplied by an exact power of two (lossless, so the
 	// classification computed on the unscaled figure is the truth for the scaled one)
-	if r.Chance(0.2) {
-		k := []int{-600, -560, -530, -400, 400, 480, 515, 600}[r.Intn(8)]
-		f := math.Ldexp(1, k)
+	if r.Chance(0.2) || centred && r.Chance(0.6) {
+		k := []int{-600, -560, -530, -400, 400, 480, 515, 600, 9999, 9999}[r.Intn(10)]
+		if centred && r.Chance(0.7) {
+			k = 9999
+		}
+		if k == 9999 {
+			// the top of the range: the largest coordinate lands in [8e307, 1.6e308], so that the
+			// difference of two coordinates of opposite sign is beyond the float64 range
+			m := 0.0
+			for _, pg := range polys {
+				for _, ring := range pg {
+					for _, p := range ring {
+						m = math.Max(m, math.Max(math.Abs(p.X), math.Abs(p.Y)))
+					}
+				}
+			}
+			for _, p := range pts {
+				m = math.Max(m, math.Max(math.Abs(p.X), math.Abs(p.Y)))
+			}
+			_, e := math.Frexp(m)
+			k = 1024 - e
+			c.Count("float.scaled_to_the_top_of_the_range")
+		}
+		f, f2 := math.Ldexp(1, k), 1.0
+		if k > 1000 {
+			f, f2 = math.Ldexp(1, k-2), 4 // 2^k itself may not be representable
+		}
 		okScale := true
 		sc := func(p geom.Point) geom.Point {
-			q := geom.Point{X: p.X * f, Y: p.Y * f}
+			q := geom.Point{X: p.X * f * f2, Y: p.Y * f * f2}
 			if math.IsInf(q.X, 0) || math.IsInf(q.Y, 0) || (p.X != 0 && math.Abs(q.X) < 1e-300) || (p.Y != 0 && math.Abs(q.Y) < 1e-300) {
 				okScale = false
 			}
